@@ -169,4 +169,40 @@ def scanWith (copyFirst : Bool) (parallel : Bool) (s : Sched) (w : Worker) (h : 
   else if parallel then scanPar copyFirst s w h cell rows cache
   else seqScanCache copyFirst w h cell cache rows
 
+/-! ### `mc.scan_steady_state`: a sequential inner scan inside every pool task -/
+
+/-- `mc.scan_steady_state`, one Monte-Carlo row in a pool process: the pickled `partial(..., model=model)` is unpickled
+    into a private heap (`[c]`, cell 0); `_update_parameters_and_initial_conditions` copies the model (when the source
+    says so), writes the sample in, and calls `_parameter_scan_worker`, i.e. `scan.steady_state(model, to_scan=inner,
+    parallel=False, y0=None)`: a SEQUENTIAL inner scan on that one model object.  The answer — a `SteadyStateScan` whose
+    results refer to model objects of this process — travels back as the process's heap and the result list. -/
+def mcScanChild (copyFirst : Bool) (w : Worker) (inner : List (Label × Row)) (c : Content) (sample : Row) :
+    Except Err (Heap × List (Label × Sim)) :=
+  let h1 : Heap := if copyFirst then [c, c] else [c]
+  let tgt : Nat := if copyFirst then 1 else 0
+  match applyRow c sample with
+  | .error e => .error e
+  | .ok c1 => seqScanWith copyFirst w (h1.set tgt c1) tgt inner
+
+/-- unpickling an object graph in the parent: the child's cells are appended, references shifted (sharing inside
+    the graph is preserved) -/
+def transplant (h : Heap) (child : Heap × List (Label × Sim)) : Heap × List (Label × Sim) :=
+  (h ++ child.1, child.2.map fun ls => (ls.1, { ls.2 with cell := ls.2.cell + h.length }))
+
+/-- the parent of `mc.scan_steady_state`: every Monte-Carlo row under the pool schedule, answers unpickled in input
+    order, then `{k: v.variables.T for k, v in res}`: per answer the inner results' views are read in order -/
+def mcScan (copyFirst : Bool) (assign : List Nat) (n : Nat) (w : Worker) (inner : List (Label × Row)) (c : Content)
+    (samples : List (Label × Row)) : Except Err (List (Label × List (List Rat × View))) := do
+  let answers := schedMap assign n (fun (lr : Label × Row) => (lr.1, mcScanChild copyFirst w inner c lr.2)) samples
+  let per ← answers.mapM fun (la : Label × Except Err (Heap × List (Label × Sim))) => do
+    let child ← la.2
+    let (h, sims) := transplant [c] child
+    let (_, memo) ← readViews (sims.map (·.2)) h [] (List.range sims.length)
+    let e ← ssContainer inner sims
+    pure (la.1, (List.range e.length).filterMap fun i =>
+      match e[i]?, memo.lookup i with
+      | some x, some v => some (x.1, v)
+      | _, _ => none)
+  pure (dictOf per)
+
 end Mxl.C09
